@@ -61,6 +61,9 @@ FormOK(o, k) ==
   IN  IF o.opts.abs
       THEN IsAbsoluteUrl(r) /\ ~HasDots(r)
       ELSE IF SameDocLocal(u, RootUrl(o)) THEN IsFragOnly(r)
+      \* (a target whose query differs from the root's cannot be written relatively for this library: its
+      \* relative references always inherit the query of their base - pinned by its tests; any form goes)
+      ELSE IF NoFileQuery(u).query # NoFileQuery(RootUrl(o)).query THEN TRUE
       ELSE IF UnderDirOf(RootUrl(o), u) THEN IsRelPath(r)
       ELSE TRUE
 BadForm(o) == {k \in KeptRefs(o) : ~FormOK(o, k)}
@@ -70,6 +73,7 @@ FormOKRel(o, k) ==
   LET r == o.nodes[k].ref
       u == Resolve(RootUrl(o), r)
   IN  IF SameDocLocal(u, RootUrl(o)) THEN IsFragOnly(r)
+      ELSE IF NoFileQuery(u).query # NoFileQuery(RootUrl(o)).query THEN TRUE
       ELSE IF UnderDirOf(RootUrl(o), u) THEN IsRelPath(r)
       ELSE TRUE
 
